@@ -10,5 +10,6 @@ import (
 func TestVerif(t *testing.T) {
 	kernel.WorkerMain(t, map[string]kernel.Property{
 		"C04": C04{},
+		"C05": C05{},
 	})
 }
